@@ -128,6 +128,47 @@ def judge(ctx, rows):
         ctx.cov["traces_validated_against_impl"] += 1
 
 
+def e2e_chunk_late_reply(ctx, runs, par):
+    """The real binary: a chunked SYN scan (450 single-port ranges = 3 engines one after the other) with a reply to a
+    probe of the first chunk arriving after that chunk's engine has ended. The process must not crash."""
+    import subprocess
+    sx = os.path.join(ctx.work, "sx")
+    rc, out = verif.sh(["go", "build", "-o", sx, "."], env=verif.GOENV, cwd=verif.REPO, timeout=900)
+    if rc != 0:
+        ctx.broken.append(("correspondence: the sx binary does not build", out[-1500:]))
+        return
+    hdir = os.path.join(verif.ROOT, "harness")
+    rc, out = verif.sh(["go", "build", "-o", os.path.join(hdir, "bin", "lateresp"), "./cmd/lateresp"], env=verif.GOENV,
+                       cwd=hdir, timeout=600)
+    if rc != 0:
+        ctx.skipped.append("e2e chunk/late-reply stage: helper does not build")
+        return
+    rc, out = verif.sh([os.path.join(verif.ROOT, "bin", "e2e-chunk-late-reply"), sx, os.path.join(hdir, "bin", "lateresp"),
+                        str(runs), str(par), os.path.join(ctx.work, "e2e")], timeout=600)
+    rows = []
+    for line in out.splitlines():
+        try:
+            rows.append(json.loads(line))
+        except ValueError:
+            pass
+    if any("skipped" in r for r in rows) or not rows:
+        ctx.skipped.append("e2e chunk/late-reply stage: " + (rows[0].get("skipped", "?") if rows else "no output"))
+        return
+    crashes = [r for r in rows if r.get("crash")]
+    for r in rows:
+        ctx.count("e2e-chunk-late-reply", ("e2e", r["run"]), nontrivial=True,
+                  sample={"engine": "sx tcp syn -p <450 ports> with a late reply from chunk 1", "run": r["run"], "rc": r["rc"],
+                          "crash": r["crash"]})
+    ctx.info.append("e2e chunk/late-reply: %d runs of the real binary, %d crashed" % (len(rows), len(crashes)))
+    if crashes:
+        why = "the process crashes: " + crashes[0]["excerpt"]
+        path = ctx.write_replay("e2e-chunk-crash", {
+            "property": "C12", "what": why, "input": "sx tcp syn -a cache.json --exit-delay 40ms -p 1,2,...,450 <host on a veth> "
+            "with a SYN+ACK from port 7 arriving 90-240 ms after the probe (bin/e2e-chunk-late-reply)",
+            "crashed_runs": crashes[:5], "runs": len(rows)})
+        ctx.findings.append({"key": "packet:crash-after-engine-closed", "what": why, "replay": path})
+
+
 def run(ctx):
     quick = ctx.tier == "quick"
     ctx.trusted += ["Base/Net.v is the assumed semantics of Go channels, select, close, WaitGroup and context cancellation",
@@ -146,6 +187,7 @@ def run(ctx):
             for gmp in ("1", "4"):
                 rows += batch(ctx, ctx.seed + int(gmp), 400, 400, tag="_g" + gmp, env={"GOMAXPROCS": gmp})
     judge(ctx, rows)
+    e2e_chunk_late_reply(ctx, 3 if quick else 12, 6 if quick else 12)
     if not quick:
         ctx.harness_race_run("c07", ["-out", "race7.jsonl", "-seed", ctx.seed + 9, "-n", 0, "-cancel", 400], "in the packet engine under cancellation")
         ctx.harness_race_run("c08", ["-out", "race8.jsonl", "-seed", ctx.seed + 9, "-n", 0, "-cancel", 400], "in the application engine under cancellation")
